@@ -573,7 +573,7 @@ fn drive_numeric(t: &mut Tracer, a: &Args, st: &mut Stats, rng: &Rng) {
         if !a.wants(subject) {
             continue;
         }
-        group(t, 8);
+        group(t, 16);
         for (fam, pool) in &pools {
             let pj = spool_json(pool);
             let n = pool.len();
@@ -622,7 +622,6 @@ fn drive_numeric(t: &mut Tracer, a: &Args, st: &mut Stats, rng: &Rng) {
         if !a.wants(subject) {
             continue;
         }
-        group(t, 12);
         rst(t, subject, json!({"fam":"numcmp","variant":"with_sign"}));
         let mut pool: Vec<(String, bool)> = vec![];
         for b in bodies {
@@ -803,7 +802,12 @@ fn li_step(t: &mut Tracer, c: &mut dyn Cursor_, list: &[String], op: &str, targe
 fn mk_cursor<'a>(subject: &str, list: &'a [String]) -> Box<dyn Cursor_ + 'a> {
     match subject {
         "lexiter:streaming" => Box::new(CurST(StreamingLexIterator::new(stream_of(list)))),
-        "lexiter:builder_sortedvec" => Box::new(CurSV(LexIteratorBuilder::new().build_sorted_vec(list))),
+        "lexiter:builder_streaming" => {
+            Box::new(CurST(LexIteratorBuilder::new().optimize_for_memory(true).buffer_size(16).build_streaming(stream_of(list))))
+        }
+        "lexiter:builder_sortedvec" => {
+            Box::new(CurSV(LexIteratorBuilder::new().optimize_for_memory(true).buffer_size(64).build_sorted_vec(list)))
+        }
         _ => Box::new(CurSV(SortedVecLexIterator::new(list))),
     }
 }
@@ -853,11 +857,11 @@ fn lexiter_lists(rng: &Rng, thorough: bool) -> Vec<(String, Vec<String>)> {
 fn drive_lexiter(t: &mut Tracer, a: &Args, st: &mut Stats, rng: &Rng) {
     let lists = lexiter_lists(rng, a.thorough());
     let probes_extra = ["", "a", "a\u{e9}", "aa", "b", "bb", "\u{0}", "\u{10ffff}", "k", "\u{e9}"];
-    for subject in ["lexiter:sortedvec", "lexiter:builder_sortedvec", "lexiter:streaming"] {
+    for subject in ["lexiter:sortedvec", "lexiter:builder_sortedvec", "lexiter:streaming", "lexiter:builder_streaming"] {
         if !a.wants(subject) {
             continue;
         }
-        let streaming = subject == "lexiter:streaming";
+        let streaming = subject == "lexiter:streaming" || subject == "lexiter:builder_streaming";
         group(t, 4000);
         for (fam, list) in &lists {
             let mut probes: Vec<String> = probes_extra.iter().map(|s| s.to_string()).collect();
@@ -983,7 +987,7 @@ fn sorted_inputs(rng: &Rng, thorough: bool) -> Vec<(String, Vec<String>)> {
     }
     // a larger list: radix buckets (>= 32 elements per bucket), long shared prefixes
     let mut r = rng.derive("svbig");
-    let n = if thorough { 1500 } else { 420 };
+    let n = if thorough { 1500 } else { 620 }; // > 2 x 256: the block binary search path
     let al = ["a", "b", "\u{e9}", "p"];
     let l: Vec<String> = (0..n)
         .map(|_| {
@@ -1356,6 +1360,39 @@ fn drive_lines(t: &mut Tracer, a: &Args, st: &mut Stats, rng: &Rng) {
                     }
                 }
             }
+            // the configuration presets (their own buffer sizes; secure allocates from a SecureMemoryPool)
+            for (pname, preset) in [
+                ("memory_optimized", LineProcessorConfig::memory_optimized as fn() -> LineProcessorConfig),
+                ("performance_optimized", LineProcessorConfig::performance_optimized),
+                ("secure", LineProcessorConfig::secure),
+            ] {
+                if pname == "secure" && k % 16 != 0 {
+                    continue;
+                }
+                let c0 = preset();
+                let (p, s, tr) = (c0.preserve_line_endings, c0.skip_empty_lines, c0.trim_whitespace);
+                for via in ["process_lines", "count_lines"] {
+                    let r = guard(|| -> Option<(Vec<Vec<u8>>, usize)> {
+                        let mut lp = LineProcessor::with_config(Cursor::new(text.clone()), preset());
+                        let mut out: Vec<Vec<u8>> = vec![];
+                        let n = if via == "process_lines" {
+                            lp.process_lines(|l| {
+                                out.push(l.as_bytes().to_vec());
+                                Ok(true)
+                            })
+                            .ok()?
+                        } else {
+                            lp.count_lines().ok()?
+                        };
+                        Some((out, n))
+                    });
+                    match r {
+                        Ok(Some((out, n))) => res.push(json!({"via":via,"preset":pname,"p":p,"s":s,"t":tr,"ok":true,"r":pool_json(&out),"n":n,"lnok":true})),
+                        Ok(None) => res.push(json!({"via":via,"preset":pname,"p":p,"s":s,"t":tr,"ok":false,"r":[],"n":0,"lnok":true})),
+                        Err(m) => res.push(json!({"via":"panic","preset":pname,"p":p,"s":s,"t":tr,"ok":false,"r":[],"n":0,"lnok":true,"msg":m})),
+                    }
+                }
+            }
             let nres = res.len() as u64;
             t.ev(json!({"op":"lines","text":bj(text),"res":res}));
             st.add("lines:line_processor", nres);
@@ -1371,11 +1408,11 @@ fn drive_lines(t: &mut Tracer, a: &Args, st: &mut Stats, rng: &Rng) {
         lines.push(s.to_string());
     }
     let delims = [",", " ", "\t", ";", "::", "\u{e9}", ", "];
+    group(t, 100);
     for (subject, strategy) in [("split:simple", "simple"), ("split:optimized", "optimized"), ("split:custom", "custom")] {
         if !a.wants(subject) {
             continue;
         }
-        group(t, 100);
         rst(t, subject, json!({"fam":"split","variant":strategy}));
         let mut sp = match strategy {
             "simple" => LineSplitter::new(),
@@ -1478,6 +1515,8 @@ fn drive_case(t: &mut Tracer, a: &Args, st: &mut Stats, rng: &Rng) {
     }
 }
 
+include!("c20_parts/round2.rs");
+
 // ---------------------------------------------------------------- main
 
 fn main() {
@@ -1509,14 +1548,23 @@ fn main() {
             for (fam, pool) in &fams {
                 drive_simd(&mut t, &a, &mut st, fam, pool, false);
             }
+            drive_boundaries(&mut t, &a, &mut st);
+            drive_find_families(&mut t, &a, &mut st);
+            drive_multi_search(&mut t, &a, &mut st, &rng);
+            drive_fs_conv(&mut t, &a, &mut st, &rng);
             drive_numeric(&mut t, &a, &mut st, &rng);
             drive_lexiter(&mut t, &a, &mut st, &rng);
+            drive_lex_utils(&mut t, &a, &mut st, &rng);
             drive_sorted(&mut t, &a, &mut st, &rng);
+            drive_sorted2(&mut t, &a, &mut st, &rng);
             group(&mut t, 400);
             drive_join(&mut t, &a, &mut st, &rng);
             group(&mut t, 400);
             drive_words(&mut t, &a, &mut st, &rng);
+            drive_charclass(&mut t, &a, &mut st);
             drive_lines(&mut t, &a, &mut st, &rng);
+            drive_line_utils(&mut t, &a, &mut st, &rng);
+            drive_utf8(&mut t, &a, &mut st, &rng);
             group(&mut t, 100);
             drive_case(&mut t, &a, &mut st, &rng);
         }
